@@ -333,6 +333,11 @@ class Assembler:
             for mm in reversed(list(re.finditer(r"&(?!\s*')", t.split("=")[0]))):
                 log.append({"rule": "D10", "before": "&", "after": "&'static "})
                 lines.replace_span(mm.start(), mm.end(), "&'static ")
+        # D4b: derived impls are external to Verus; their (structural) contracts are assumed explicitly in the prelude
+        for k, (l, o) in enumerate(lines.pairs):
+            if l.lstrip().startswith("#[derive("):
+                lines.pairs.insert(k + 1, ("#[verifier::external_derive]", o))
+                break
         self._log(log, rel, it)
         self.items.append({"item": it.header[:80], "file": rel, "lines": [s.line(it.start), s.line(it.end)], "sha256_16": sha(text)})
         self.out.pairs.extend(lines.pairs)
